@@ -52,19 +52,28 @@ func ReaderParamEncoder(addr string) jsonrpc.Option {
 
 type waitReadCloser struct {
 	io.ReadCloser
-	wait chan struct{}
+	wait     chan struct{}
+	waitOnce sync.Once
+}
+
+// done signals the upload handler that the stream was consumed. Reads past the
+// end and Close after EOF must not signal (close the channel) a second time.
+func (w *waitReadCloser) done() {
+	w.waitOnce.Do(func() {
+		close(w.wait)
+	})
 }
 
 func (w *waitReadCloser) Read(p []byte) (int, error) {
 	n, err := w.ReadCloser.Read(p)
 	if err != nil {
-		close(w.wait)
+		w.done()
 	}
 	return n, err
 }
 
 func (w *waitReadCloser) Close() error {
-	close(w.wait)
+	w.done()
 	return w.ReadCloser.Close()
 }
 
